@@ -935,3 +935,79 @@ B("b-trap-predicate-rewritten", ["C09"],
     "        trap_states = [s for s in cls.states if not (s.final or len(s.transitions) > 0)]"))
 B("b-initial-count-rewritten", ["C09"],
   E(FAC, "        if len(initials) != 1:", "        if not len(initials) == 1:"))
+
+# ----------------------------------------------------------------------------------------- C12
+M("c12-search-name-first-provider-only", "C12", ["C12.allproviders"],
+  E(DISP, """            yield key, partial(callable_method, func)
+
+
+def callable_method""", """            yield key, partial(callable_method, func)
+            return
+
+
+def callable_method"""))
+M("c12-guard-multi-provider-any", "C12", ["C12.allproviders"],
+  E(DISP, "            return reduce(custom_and, callbacks)", "            return reduce(custom_or, callbacks)"),
+  E(DISP, "from .spec_parser import custom_and\n", "from .spec_parser import custom_and\nfrom .spec_parser import custom_or\n"))
+M("c12-key-without-provider-id", "C12", ["C12.dedup"],
+  E(DISP, "            return cls(obj, all_attrs, str(id(obj)))", "            return cls(obj, all_attrs, type(obj).__name__)"),
+  note="two listeners of the same class: the second one's callbacks are dropped as duplicates")
+M("c12-class-level-registry", ["C12", "C16"], ["C12.own", "C16.fresh"],
+  E(SM, "        self._callbacks = CallbacksRegistry()\n        self._states_for_instance: Dict[State, State] = {}\n\n        self._listeners: Dict[Any, Any] = {}\n        \"\"\"Listeners",
+    "        self._states_for_instance: Dict[State, State] = {}\n\n        self._listeners: Dict[Any, Any] = {}\n        \"\"\"Listeners"),
+  E(SM, """    TransitionNotAllowed = TransitionNotAllowed
+""", """    TransitionNotAllowed = TransitionNotAllowed
+    _callbacks = CallbacksRegistry()
+"""))
+M("c12-executor-no-seen-check", ["C12", "C02"], ["C12.dedup", "C02.once"],
+  E(CB, """        if key in self.items_already_seen:
+            return
+
+""", ""))
+M("c12-late-listener-all-references", "C12", ["C12.same-path"],
+  E(SM, "            allowed_references=SPECS_SAFE,", "            allowed_references=SPECS_ALL,"))
+M("c12-model-not-a-provider", "C12", ["C12.same-path"],
+  E(SM, "                    Listener.from_obj(self.model, skip_attrs={self.state_field}),\n", ""))
+M("c12-listeners-only-on-transitions", "C12", ["C12.same-path"],
+  E(GR, "        yield state\n        yield from state.transitions", "        yield from state.transitions"))
+M("c12-setstate-f15-reintroduced", ["C12", "C17"], ["C12.engine", "C17.steps"],
+  E(SM, """        # the listeners were attached after `_register_callbacks` decided between sync and async
+        self._callbacks.async_or_sync()
+""", ""), note="F15")
+M("c12-resolve-stops-after-first-builder", "C12", ["C12.allproviders"],
+  E(DISP, """            for key, builder in self.build(spec):
+                executor.add(key, spec, builder)
+""", """            for key, builder in self.build(spec):
+                executor.add(key, spec, builder)
+                break
+"""))
+
+# ----------------------------------------------------------------------------------------- C17
+M("c17-clone-resets-allow-event", "C17", ["C17.carry"],
+  E(SM, """        self.__dict__.update(state)
+        self._callbacks = CallbacksRegistry()""", """        self.__dict__.update(state)
+        self.allow_event_without_transition = False
+        self._callbacks = CallbacksRegistry()"""), note="properties.jsonl: verified to pass all 348 tests")
+M("c17-getstate-drops-start-value", "C17", ["C17.excluded", "C17.carry"],
+  E(SM, """        del state["_engine"]
+        return state""", """        del state["_engine"]
+        del state["start_value"]
+        return state"""))
+M("c17-f12-reintroduced", "C17", ["C17.steps"],
+  E(SM, """        self._engine = self._get_engine(rtc)
+        self._engine.start()
+
+    def _get_initial_state""", """        self._engine = self._get_engine(rtc)
+
+    def _get_initial_state"""), note="F12")
+M("c17-rtc-not-restored", "C17", ["C17.carry"],
+  E(SM, "        self._engine = self._get_engine(rtc)\n        self._engine.start()\n\n    def _get_initial_state", "        self._engine = self._get_engine(True)\n        self._engine.start()\n\n    def _get_initial_state"))
+M("c17-shared-registry-with-original", "C17", ["C17.excluded", "C17.carry"],
+  E(SM, """        del state["_callbacks"]
+""", ""),
+  E(SM, """        self.__dict__.update(state)
+        self._callbacks = CallbacksRegistry()""", """        self.__dict__.update(state)"""))
+M("c17-listeners-not-reattached", "C17", ["C17.carry", "C17.steps"],
+  E(SM, "        self.add_listener(*listeners.keys())\n", ""))
+M("c17-getstate-no-copy", "C17", ["C17.carry"],
+  E(SM, "        state = self.__dict__.copy()", "        state = self.__dict__"), note="serialising mutates the live machine (deletes its engine)")
